@@ -716,7 +716,16 @@ func (env *Zlisp) LoadExpressions(xs []Sexp) error {
 		return err
 	}
 
-	env.mainfunc.fun = append(env.mainfunc.fun, gen.instructions...)
+	if env.curfunc == env.mainfunc && env.ReachedEnd() && env.addrstack.IsEmpty() {
+		// The interpreter is idle: all of the main function has run and
+		// nothing returns or jumps into it any more (functions and
+		// loops carry their own code). Start over instead of keeping
+		// the instructions of every evaluation ever served.
+		env.mainfunc.fun = gen.instructions
+		env.pc = 0
+	} else {
+		env.mainfunc.fun = append(env.mainfunc.fun, gen.instructions...)
+	}
 	env.curfunc = env.mainfunc
 
 	return nil
